@@ -1,0 +1,92 @@
+//go:build verif
+
+package bitcoin_reader
+
+import (
+	"context"
+	"fmt"
+	"net"
+
+	"github.com/tokenized/logger"
+	"github.com/tokenized/threads"
+)
+
+// This file is only built with the "verif" build tag. It exposes existing unexported entry points
+// to an external deterministic simulation harness. It adds no behaviour of its own.
+
+// RunWithConnection runs the node over an already established connection. It is the existing
+// mockConnect followed by the existing run.
+func (n *BitcoinNode) RunWithConnection(ctx context.Context, connection net.Conn,
+	interrupt <-chan interface{}) error {
+
+	if err := n.mockConnect(ctx, connection); err != nil {
+		return err
+	}
+
+	return n.run(ctx, interrupt)
+}
+
+// AddNodeWithConnection does what FindByScore does for one peer address, but runs the new node
+// over the supplied connection instead of dialing the address.
+func (m *NodeManager) AddNodeWithConnection(ctx context.Context, address string,
+	connection net.Conn) *BitcoinNode {
+	m.Lock()
+	defer m.Unlock()
+
+	node := NewBitcoinNode(address, m.userAgent, m.config, m.headers, m.peers)
+	if m.headerHandler != nil {
+		node.SetHeaderHandler(m.headerHandler)
+	}
+	if m.txManager != nil {
+		node.SetTxManager(m.txManager)
+	}
+
+	nodeCtx := logger.ContextWithLogFields(ctx, logger.Stringer("connection", node.ID()))
+	thread := threads.NewInterruptableThread(fmt.Sprintf("Node: %s", address),
+		func(ctx context.Context, interrupt <-chan interface{}) error {
+			return node.RunWithConnection(ctx, connection, interrupt)
+		})
+	thread.SetWait(&m.wait)
+	thread.Start(nodeCtx)
+
+	m.nodes = append(m.nodes, &nodeThread{
+		node:   node,
+		thread: thread,
+		id:     node.ID(),
+	})
+
+	return node
+}
+
+// AddScanNodeWithConnection does what Scan does for one peer address, but runs the new verify-only
+// node over the supplied connection instead of dialing the address.
+func (m *NodeManager) AddScanNodeWithConnection(ctx context.Context, address string,
+	connection net.Conn) *BitcoinNode {
+	m.Lock()
+	defer m.Unlock()
+
+	node := NewBitcoinNode(address, m.userAgent, m.config, m.headers, m.peers)
+	node.SetVerifyOnly()
+
+	nodeCtx := logger.ContextWithLogFields(ctx, logger.Stringer("scan_connection", node.ID()))
+	thread := threads.NewInterruptableThread(fmt.Sprintf("Scan Node: %s", address),
+		func(ctx context.Context, interrupt <-chan interface{}) error {
+			return node.RunWithConnection(ctx, connection, interrupt)
+		})
+	thread.SetWait(&m.wait)
+	thread.Start(nodeCtx)
+
+	m.scanNodes = append(m.scanNodes, &nodeThread{
+		node:   node,
+		thread: thread,
+		id:     node.ID(),
+	})
+
+	return node
+}
+
+// MarkStartupDelayComplete is the action the "Startup Delay" thread of Run performs when the
+// configured startup delay has elapsed.
+func (m *NodeManager) MarkStartupDelayComplete(ctx context.Context) {
+	m.markStartupDelayComplete(ctx)
+}
